@@ -100,6 +100,7 @@ def judge_space(kind, shape, types, colours, repname, devs):
     buckets = {}
     bucket_obj = {}
     eqs = {}
+    retained = []
     for m in members:
         n += 1
         obj = build(m)
@@ -140,6 +141,8 @@ def judge_space(kind, shape, types, colours, repname, devs):
                 return n, 'a copy of a member has a different representation', m
         buckets[img] = ek
         eqs[ek] = img
+        if len(retained) < 64:
+            retained.append((arr, {k: np.array(v, copy=True) for k, v in arr.items()}))
         # equal members hash alike even when one of them got there through in-place mutation (the library's own
         # transition functions open doors by assigning door.state): hash first, mutate, compare with a fresh build
         doors = [(yy, xx) for yy in range(H) for xx in range(W) if rows[yy][xx][0] == 'Door' and rows[yy][xx][1] != 0]
@@ -158,6 +161,11 @@ def judge_space(kind, shape, types, colours, repname, devs):
                     return n, f'a state mutated {how} (door opened) does not equal the freshly built equal state', m
                 if hash(target) != hash(fresh) or hash(target.grid) != hash(fresh.grid):
                     return n, f'equal states hash differently after a door was opened {how} (stale cached hash?)', m
+    # arrays handed out earlier must still hold the representation they were returned with
+    for arr, cp in retained:
+        for k in cp:
+            if not np.array_equal(arr[k], cp[k]):
+                return n, f'a representation returned earlier was overwritten by later conversions (entry {k!r} aliased to an internal buffer)', None
     return n, None, None
 
 
@@ -196,7 +204,7 @@ def spaces(tier):
         subsets += [c for c in itertools.combinations(names, 3)] + [tuple(names), tuple(t for t in names if t != 'Box')]
     else:
         subsets += [tuple(names), tuple(t for t in names if t != 'Box')]
-    subsets += [('Wall', 'Floor', 'Door', 'Key', 'Hidden'), ('NoneGridObject', 'Floor', 'Exit'), ('Floor', 'Wall', 'Floor', 'Key'),
+    subsets += [('Floor', 'Key', 'VerifSubKey'), ('Wall', 'Floor', 'Exit', 'Door', 'Key', 'VerifSubKey'), ('Wall', 'Floor', 'Door', 'Key', 'Hidden'), ('NoneGridObject', 'Floor', 'Exit'), ('Floor', 'Wall', 'Floor', 'Key'),
                 ('Hidden', 'NoneGridObject', 'Floor', 'Door')]
     for ts in subsets:
         for cs in colour_sets:
